@@ -10,7 +10,7 @@ def _c(text, design, note=None):
             "note": note or "A1 tool soundness and Kani's std/float models; A2 safe Rust memory safety where memory-safety checks are off (no `unsafe` in the crates under contract); A3 std I/O and formatting helpers behave as documented; A4 lz4/zstd unverified (compressed chunk modes not covered); A5 extraction shims (match dispatch, builder/map doubles) as listed in the evidence file; A6 reflection database arbitrary but fixed; A8 every bounded obligation holds only up to the bound stated for it in the evidence file."}
 
 CLAIMED = {
- "C01": _c("Machine-checked contracts on the leaf mechanisms of the binary round trip: scalar codecs for every bit pattern, interleaving, referent deltas, every fixed-size column arm pair (verbatim-extracted) inverse at column length 2, rotation snap sound and complete w.r.t. the documented table, type-id tables, uncompressed framing. Obligations over the full value domain are counted as proved; obligations with a length bound are reported separately as bounded. Traversal, numbering, name lookup and compression are outside the contracts, so the level is 'other', not a proof of the whole statement.", "DESIGN.md sections 3 (U1-U6) and 4 (C01)"),
+ "C01": _c("Machine-checked contracts on the leaf mechanisms of the binary round trip: scalar codecs for every bit pattern, interleaving, referent deltas, every fixed-size column arm pair (verbatim-extracted) inverse at column length 2, rotation snap only within epsilon of the documented rotation, type-id tables, uncompressed framing. Obligations over the full value domain are counted as proved; obligations with a length bound are reported separately as bounded. Traversal, numbering, name lookup and compression are outside the contracts, so the level is 'other', not a proof of the whole statement.", "DESIGN.md sections 3 (U1-U6) and 4 (C01)"),
  "C03": _c("Each encode arm under contract equals, byte for byte, an independent encoder written from docs/binary.md, plus documented type ids, chunk header layout and integer/float transformations. Whole-file structural clauses (counts, uniqueness, PRNT order, END chunk) are not covered.", "DESIGN.md sections 3 (U3, U4, U5) and 4 (C03)"),
  "C04": _c("Each decode arm under contract accepts arbitrary spec-conformant wire bytes of a 2-value column and returns what an independent reader written from docs/binary.md returns, incl. non-canonical encodings and both widening arms; zigzag is a bijection; unknown ids rejected. Chunk-level degrees of freedom (order, META, unknown chunks, PRNT order) are not covered.", "DESIGN.md sections 3 (U3, U1, U4) and 4 (C04)"),
  "C13": _c("Function-level panic-freedom: fixed-size parsers on all bytes and all truncations, decode arms and attribute arms on every truncation, error-not-panic for malformed chunk framing, short-read independence of read_exact_or_none, sink failure in ChunkBuilder::dump, text parsers. No statement about hangs, memory, whole files or the XML decoder.", "DESIGN.md sections 3 (U5, U7, U8) and 4 (C13)"),
